@@ -42,6 +42,7 @@ type VerifC11Spec struct {
 	Resp    string         `json:"resp"`    // ok | okcert | garbage | oversize | zero | cut | never
 	Cut     int            `json:"cut"`     // resp=cut: only the first Cut bytes of the well-formed response (without certificate), then EOF
 	RespLen int            `json:"respLen"` // length of that well-formed response as the generator believes it (checked)
+	ExitNil bool           `json:"exitNil,omitempty"` // the server process ends with a nil result (exit status 0) instead of an error
 	Dies    int            `json:"dies"`    // -1: never; k >= 0: the server process dies once k requests were handed to the client
 	Stderr  string         `json:"stderr"`  // what a reference server prints on stderr
 	Chunk   int            `json:"chunk"`   // stderr is delivered in reads of at most Chunk bytes (0: all at once)
@@ -94,11 +95,19 @@ func verifC11BigResp(size int) []byte {
 }
 
 type verifC11Proc struct {
+	exitNil bool
 	mu      sync.Mutex
 	done    bool
 	doneCh  chan struct{}
 	actions []func(error)
 	aborts  int
+}
+
+func (p *verifC11Proc) exitErr() error {
+	if p.exitNil {
+		return nil
+	}
+	return errors.New("verif server process ended")
 }
 
 func (p *verifC11Proc) stop() {
@@ -113,13 +122,13 @@ func (p *verifC11Proc) stop() {
 	close(p.doneCh)
 	p.mu.Unlock()
 	for _, a := range acts {
-		a(errors.New("verif server process ended"))
+		a(p.exitErr())
 	}
 }
 
 func (p *verifC11Proc) result() error {
 	<-p.doneCh
-	return errors.New("verif server process ended")
+	return p.exitErr()
 }
 
 func (p *verifC11Proc) abort() {
@@ -133,7 +142,7 @@ func (p *verifC11Proc) whenDone(action func(error)) {
 	p.mu.Lock()
 	if p.done {
 		p.mu.Unlock()
-		action(errors.New("verif server process ended"))
+		action(p.exitErr())
 		return
 	}
 	p.actions = append(p.actions, action)
@@ -348,7 +357,7 @@ func VerifC11Run(spec VerifC11Spec) VerifC11Obs {
 		if spec.Start == "err" {
 			return nil, errors.New("verif: cannot start")
 		}
-		p := &verifC11Proc{doneCh: make(chan struct{})}
+		p := &verifC11Proc{doneCh: make(chan struct{}), exitNil: spec.ExitNil}
 		procMu.Lock()
 		proc = p
 		procMu.Unlock()
